@@ -30,8 +30,30 @@ var c18TypeBases = []string{"cpu", "samples", "alloc_space", "inuse_objects"}
 var c18Whole = []string{`\`, `"`, `a\`, `a"`, `"a`, "\n", "a\nb", `a\"`, `\\`, `x" URL="javascript:z()`, `a" ]` + "\nN9 -> N1 [label=\"",
 	"(1)", "(2) other", "fn=(1)", "\nfn=(9)", " ", "  lead", "trail\\", `"\`, `\"\`, "a\n\nb", "*", "+1", "0x0"}
 
+// format look-alikes: strings that are THEMSELVES syntax of a target format, short (1-4 bytes
+// mostly) so that "is the reference shorter than the name" style decisions flip, and drawn from
+// a small pool so that the same one occurs in several nodes (back-references, repeated ids).
+var c18Look = []string{
+	// callgrind: name compression, subpositions, position/call lines, comments, blanks
+	"(1)", "(2)", "(3)", "(9)", "(12)", "(12) foo", "(1) x", "( 1)", "(1", "1)", "()", "+3", "-3", "*", "0", "7", "0x10",
+	"fn=x", "cfn=(1)", "fl=", "ob=(2)", "calls=1 2", "calls=", "# c", "#", " (1)", "(1) ", " x", "x ", "events:", "a=b",
+	// DOT: identifiers pprof itself uses, statements, brackets, escape sequences
+	"N1", "N2", "N1_0", "NN1_0", "N1 -> N2", "->", "]", "[", "}", "{", `[label="x"]`, `\l`, `\n`, `\"`, `\`, `"`, `""`, ";", "=", "node", "edge", "digraph",
+	// HTML / template / JS
+	"</script>", "<b>", "{{.}}", "{{", "&#x27;", "&lt;", "<!--", "-->", "'", "`", "</pre>",
+}
+
+// c18LookPct is the per-string probability (percent) of a look-alike; set by the runner for each
+// case before its input is generated (generation is single-threaded and seeded).
+var c18LookPct int
+
 // c18Str builds a string for one position: hot positions get metacharacters and the marker.
 func c18Str(r *Rng, bases []string, hot bool, marker string) c18s {
+	if c18LookPct > 0 && r.Chance(c18LookPct) {
+		// every string position, hot or not, and WITHOUT the marker: the marker would make the
+		// string long and unlike the format
+		return c18s(c18Look[r.Intn(len(c18Look))])
+	}
 	base := bases[r.Intn(len(bases))]
 	if !hot {
 		if r.Chance(12) {
@@ -113,12 +135,27 @@ func c18GenProf(r *Rng, hot, marker string, tags, clean bool) *c18Prof {
 			f.Name = d.Funcs[r.Intn(i)].Name
 		}
 		if clean {
-			for _, g := range d.Funcs {
-				// granularities drop the file or the function name: each must be unique alone
-				if g.Name == f.Name {
+			// granularities drop the file or the function name: each must be unique alone
+			// (look-alikes are redrawn rather than suffixed, to stay look-alikes)
+			taken := func(name bool, v c18s) bool {
+				for _, g := range d.Funcs {
+					if name && g.Name == v || !name && g.File == v {
+						return true
+					}
+				}
+				return false
+			}
+			for k := 0; taken(true, f.Name); k++ {
+				if c18LookPct > 0 && k < 8 {
+					f.Name = c18s(c18Look[r.Intn(len(c18Look))])
+				} else {
 					f.Name += c18s(fmt.Sprintf("_%d", i))
 				}
-				if g.File == f.File {
+			}
+			for k := 0; taken(false, f.File); k++ {
+				if c18LookPct > 0 && k < 8 {
+					f.File = c18s(c18Look[r.Intn(len(c18Look))])
+				} else {
 					f.File += c18s(fmt.Sprintf("_%d", i))
 				}
 			}
@@ -318,6 +355,19 @@ func c18GenGraph(r *Rng, hot, marker string) *c18Graph {
 		g.Edges = append(g.Edges, e)
 	}
 	return g
+}
+
+// c18SetLook draws the look-alike mode of a case: none, sprinkled, or heavy.
+func c18SetLook(r *Rng) int {
+	switch r.Intn(4) {
+	case 0:
+		c18LookPct = 15
+	case 1:
+		c18LookPct = 60
+	default:
+		c18LookPct = 0
+	}
+	return c18LookPct
 }
 
 // HTML payloads: active if they reach the page unescaped.
